@@ -1,7 +1,7 @@
 (* Compile-time analyses of the regular-expression tree (C04, second part): executable models, written
    line by line from the Go code (line numbers of /repo as of the commits that fixed the three defects
    found while modelling: newRegexFc `ch < utf8.MaxRune`, findFixedDistanceString `utf8.ValidRune`,
-   findLiteralFollowingLeadingLoop decoding the UTF-8 prefix), of
+   findLiteralFollowingLeadingLoop decoding the UTF-8 prefix and giving up on U+FFFD), of
 
      try_ffcc / find_first_char_class   syntax/prefixanalyzer.go:19-211   findFirstCharClass / tryFindFirstCharClass
      ci_prefix                          syntax/prefixanalyzer.go:214-236 + tree.go:2222 TryGetOrdinalCaseInsensitiveString
@@ -110,7 +110,7 @@ Definition set_cls (id : Z) : cls := nth (Z.to_nat id) sets empty_cls.
 (* :1223 GetSetChars(maxChars).  Go returns nil or a possibly empty slice; callers only look at the length
    and the elements, so both are [].  [budget] is what is left of maxChars: the walk gives up (nil) when
    one character more than maxChars has been looked at. *)
-Fixpoint gsc_range (keep : Z -> bool) (budget : nat) (n : nat) (ch : Z) : option (nat * list Z) :=
+Fixpoint gsc_range (keep : Z -> bool) (budget : nat) (n : nat) (ch : Z) {struct n} : option (nat * list Z) :=
   match n with
   | O => Some (budget, [])
   | S n' =>
@@ -671,7 +671,9 @@ Definition find_lit_after_loop (root : node) : res (option lal) :=
                   | Some nc =>
                       let loopset := set_cls loop in
                       let p0 := find_prefix nc in
-                      let p := trim_partial (length p0) p0 in
+                      let p1 := trim_partial (length p0) p0 in
+                      (* a surrogate pattern rune reached the buffer as U+FFFD: strings.ContainsRune(prefix, RuneError) *)
+                      let p := if existsb (fun r => r =? rune_error) (runes_of p1) then [] else p1 in
                       match p with
                       | _ :: _ =>                                                (* :1205-1221 *)
                           let '(fr, w) := decode_rune p in
